@@ -1,7 +1,10 @@
 import AriesVerif.C16.Props
+import AriesVerif.C16.RelId
 #print axioms Codec.CustomFields.eq_of_key
 #print axioms Codec.CustomFields.C16_custom_fields
 #print axioms Codec.CustomFields.C16_custom_fields_nodup
 #print axioms Codec.Varint.decode_encode
 #print axioms Codec.oneOrMany_idem
 #print axioms Codec.idOnly_idem
+#print axioms Codec.RelId.C16_relative_id_roundtrip
+#print axioms Codec.RelId.C16_wrong_base_witness
